@@ -31,6 +31,20 @@ func identPositions(text string) []Pos {
 	return out
 }
 
+// identEndPositions returns, for every identifier of at least two characters, a position after
+// its first character and the position at its end (completion prefixes).
+func identEndPositions(text string) []Pos {
+	var out []Pos
+	for ln, line := range strings.Split(text, "\n") {
+		for _, loc := range identRe.FindAllStringIndex(line, -1) {
+			if loc[1]-loc[0] >= 2 {
+				out = append(out, Pos{ln, loc[0] + 1}, Pos{ln, loc[1]})
+			}
+		}
+	}
+	return out
+}
+
 func genC09(seed int64, tier string) *Scenario {
 	r := rand.New(rand.NewSource(seed))
 	sc := &Scenario{Prop: "C09", Seed: seed, Knobs: map[string]interface{}{}}
@@ -43,6 +57,7 @@ func genC09(seed int64, tier string) *Scenario {
 	classes := r.Intn(2) == 0
 	sc.Knobs["dupGlobal"], sc.Knobs["dupFunc"], sc.Knobs["sameBase"], sc.Knobs["nfiles"] = dupGlobal, dupFunc, sameBase, nfiles
 	var use strings.Builder
+	var requirers []string
 	for i := 0; i < nfiles; i++ {
 		dir := fmt.Sprintf("d%d", i%ndirs)
 		var b strings.Builder
@@ -72,6 +87,13 @@ func genC09(seed int64, tier string) *Scenario {
 			sc.Files = append(sc.Files, File{Path: fmt.Sprintf("d%d/same.lua", d), Data: Bytes(fmt.Sprintf("samevar%d = 1\nlocal M = {v=%d}\nreturn M\n", d, d))})
 		}
 		use.WriteString("local s = require(\"same\")\nprint(s, s.v)\n")
+		// the same module string required from files in different directories: the best match
+		// depends on the requiring file
+		for d := 0; d < ndirs; d++ {
+			p := fmt.Sprintf("d%d/req%d.lua", d, d)
+			sc.Files = append(sc.Files, File{Path: p, Data: Bytes(fmt.Sprintf("local m%d = require(\"same\")\nprint(m%d.v, samevar%d)\n", d, d, d))})
+			requirers = append(requirers, p)
+		}
 	}
 	if manyRefs {
 		sc.Files = append(sc.Files, File{Path: "shared.lua", Data: Bytes("shared = 1\n")})
@@ -111,6 +133,12 @@ func genC09(seed int64, tier string) *Scenario {
 				sc.Ops = append(sc.Ops, Op{Kind: "req", Method: m, Path: "use.lua", Pos: &p})
 			}
 		}
+	}
+	for _, p := range requirers {
+		sc.Ops = append(sc.Ops, Op{Kind: "open", Path: p},
+			Op{Kind: "req", Method: "definition", Path: p, Pos: &Pos{0, 22}},
+			Op{Kind: "req", Method: "hover", Path: p, Pos: &Pos{1, 7}},
+			Op{Kind: "req", Method: "definition", Path: p, Pos: &Pos{1, 9}})
 	}
 	// completion at the end of an identifier prefix
 	sc.Ops = append(sc.Ops, Op{Kind: "req", Method: "completion", Path: "use.lua", Pos: &Pos{0, 2}})
